@@ -227,6 +227,19 @@ pub fn gen_c12(cx: &mut Ctx, prop: &str) {
             }
         }
     }
+    // pairs of special characters inside a brace-quoted name (a rewrite of the raw text that targets a
+    // two-character sequence, such as CR LF, reaches into names)
+    {
+        let specials = ['\r', '\n', '\t', ' ', '\\', '{', '"', '\u{a0}', '\u{2028}'];
+        for x in specials {
+            for y in specials {
+                let name = format!("a{}{}b", x, y);
+                for text in [format!("{{{}}}", name), format!("{{{}}} & !{{a{}b}}", name, y), format!("x | {{{}}}\r\n", name)] {
+                    emit_text(cx, prop, &text, true);
+                }
+            }
+        }
+    }
     // every constant spelling directly in front of / behind every operator spelling, with and without a gap
     {
         let consts = ["true", "TRUE", "True", "t", "T", "1", "false", "FALSE", "False", "f", "F", "0"];
@@ -748,6 +761,14 @@ pub fn gen_c16(cx: &mut Ctx) {
             }
         }
     }
+    // headers made of the importer's own default names, in other columns
+    for ns in [names(&["x_1", "x_2"]), names(&["x_1", "y"]), names(&["p", "x_3", "x_4", "z"]), names(&["x_2", "x_0", "x_1"])] {
+        let bits = random_bits(&mut cx.rng, ns.len());
+        let cols: Vec<usize> = (0..ns.len()).collect();
+        let rows: Vec<usize> = (0..1usize << ns.len()).collect();
+        let text = csv_text(&mut cx.rng, &ns, &bits, &cols, &rows, true, 0);
+        emit_csv(cx, &text, true);
+    }
     // names that differ only in letter case are different names
     for ns in [names(&["A", "a"]), names(&["X1", "b", "x1"]), names(&["p53", "P53"]), names(&["É", "é"])] {
         let bits = random_bits(&mut cx.rng, ns.len());
@@ -984,6 +1005,8 @@ pub fn gen_c17(cx: &mut Ctx) {
     // other identifier names
     for ns in [
         names(&["A", "a"]), names(&["X1", "b", "x1"]), names(&["Cdc20", "cdc20", "p53", "P53"]), names(&["É", "é"]), names(&["ß", "SS", "ss"]),
+        names(&["x_1", "x_2"]), names(&["x_1", "y"]), names(&["p", "x_3", "x_4", "z"]), names(&["x_2", "x_1", "x_0"]), names(&["x_5", "y"]),
+        names(&["x_0", "x_1", "x_10", "x_2", "x_3", "x_4", "x_5", "x_6", "x_7", "x_8", "x_9"]),
         names(&["x_0", "x_1"]), names(&["B", "aa", "é"]), names(&["out", "result"]),
         names(&["F"]), names(&["T", "a"]), names(&["0", "1"]), names(&["False", "true", "z"]), names(&["a", "f"]),
         names(&["p", "q", "r", "s", "t"]), names(&["v1", "v2", "v3", "v4", "v5", "v6", "v7"]),
@@ -1006,6 +1029,11 @@ pub fn gen_c18(cx: &mut Ctx) {
     let mut sets = table_name_sets(cx.thorough);
     sets.push(names(&["averyveryverylongname", "x_10", "é"]));
     sets.push(names(&["B", "aa"]));
+    sets.push(names(&["alpha", "žár"]));
+    sets.push(names(&["abcdef", "日本"]));
+    sets.push(names(&["abcde", "éé"]));
+    sets.push(names(&["résultat", "ab"]));
+    sets.push(names(&["long_name", "ñ", "x"]));
     sets.push(names(&["true"]));
     sets.push(names(&["false", "x"]));
     sets.push(names(&["False", "True"]));
